@@ -78,20 +78,30 @@ Definition noninc_between (tol : Q) (idx : nat) (l : list Q) : bool :=
                             (if Nat.eqb idx 1 then O else 1%nat) x r
   end.
 
+(* model 2: every value is bottom-hole temperature itself or lies between injection and bottom-hole temperature *)
+Fixpoint lhs_range_ok (tol Trock Tinj : Q) (l : list Q) : bool :=
+  match l with
+  | [] => true
+  | x :: r => if Qeqb x Trock || (Qleb (Tinj - slack tol Tinj) x && Qleb x (Trock + slack tol Trock))
+              then lhs_range_ok tol Trock Tinj r else false
+  end.
+
 (* clause selector of the oracle *)
 Definition CL_HEAD : Z := 1.       (* reservoir series starts at bottom-hole temperature *)
 Definition CL_FLOOR : Z := 2.      (* production temperature never below the drawdown limit *)
 Definition CL_RESTART : Z := 3.    (* series repeat their first cycle; all but possibly the last reported redrilling restart it *)
 Definition CL_COUNT : Z := 4.      (* every reported redrilling restarts the profile inside the series *)
 Definition CL_MONO : Z := 5.       (* models 3,4: never above bottom-hole temperature, never rising within a cycle *)
+Definition CL_LHS : Z := 6.        (* model 2: values outside [Tinj, Trock] replaced by Trock *)
 
 Definition period_of (r : nat) (P T : list Q) : option nat :=
   if Nat.eqb r 0 then Some O else find_period (length P) 1 r P T.
 
-Definition oracle (clause : Z) (tol maxdd Trock : Q) (r : nat) (T P : list Q) : bool :=
+Definition oracle (clause : Z) (tol maxdd Trock Tinj : Q) (r : nat) (T P : list Q) : bool :=
   let n := length P in
   if (clause =? CL_HEAD)%Z then close tol (hd 0 T) Trock
   else if (clause =? CL_FLOOR)%Z then floor_ok tol maxdd P
+  else if (clause =? CL_LHS)%Z then lhs_range_ok tol Trock Tinj T
   else match period_of r P T with
        | None => false
        | Some idx =>
@@ -102,26 +112,28 @@ Definition oracle (clause : Z) (tol maxdd Trock : Q) (r : nat) (T P : list Q) : 
                 else false
        end.
 
-(* flat: [clause; tol; maxdd; Trock; r; n] ++ T (n) ++ P (n)  ->  [1] when the clause holds, [0] otherwise *)
+(* flat: [clause; tol; maxdd; Trock; Tinj; r; n] ++ T (n) ++ P (n)  ->  [1] when the clause holds, [0] otherwise *)
 Definition run_oracle (a : list Q) : res :=
   match a with
-  | clause :: tol :: maxdd :: Trock :: r :: n :: rest =>
+  | clause :: tol :: maxdd :: Trock :: Tinj :: r :: n :: rest =>
       let n := qnat n in
       if Nat.eqb (length rest) (2 * n)
-      then Vals [boolQ (oracle (qZ clause) tol maxdd Trock (qnat r) (firstn n rest) (skipn n rest))]
+      then Vals [boolQ (oracle (qZ clause) tol maxdd Trock Tinj (qnat r) (firstn n rest) (skipn n rest))]
       else Err E_ARGS
   | _ => Err E_ARGS
   end.
 
-(* flat: [monotone clause applies?; tol; maxdd; Trock; r; n] ++ T (n) ++ P (n)  ->  one flag per clause 1..5 *)
+(* flat: [mode; tol; maxdd; Trock; Tinj; r; n] ++ T (n) ++ P (n)  ->  one flag per clause 1..6
+   mode 1: the monotone clause applies (models 3,4); mode 2: the range clause applies (model 2); 0: neither *)
 Definition run_oracle_all (a : list Q) : res :=
   match a with
-  | mono :: tol :: maxdd :: Trock :: r :: n :: rest =>
+  | mode :: tol :: maxdd :: Trock :: Tinj :: r :: n :: rest =>
       let n := qnat n in
       if Nat.eqb (length rest) (2 * n)
       then let T := firstn n rest in let P := skipn n rest in
-           let f (c : Z) := boolQ (oracle c tol maxdd Trock (qnat r) T P) in
-           Vals [f CL_HEAD; f CL_FLOOR; f CL_RESTART; f CL_COUNT; if qbool mono then f CL_MONO else 1]
+           let f (c : Z) := boolQ (oracle c tol maxdd Trock Tinj (qnat r) T P) in
+           Vals [f CL_HEAD; f CL_FLOOR; f CL_RESTART; f CL_COUNT;
+                 if Qeqb mode 1 then f CL_MONO else 1; if Qeqb mode 2 then f CL_LHS else 1]
       else Err E_ARGS
   | _ => Err E_ARGS
   end.
